@@ -98,3 +98,12 @@ Proof.
   induction l as [|y l IH]; cbn; intros H x Hx; [tauto|].
   apply orb_false_iff in H as [H1 H2]. destruct Hx as [->|Hx]; auto.
 Qed.
+
+Lemma NoDup_app_intro {A} (a b : list A) :
+  NoDup a -> NoDup b -> (forall x, In x a -> In x b -> False) -> NoDup (a ++ b).
+Proof.
+  induction a as [|x a IH]; cbn; intros Ha Hb H; auto.
+  inversion Ha; subst. constructor.
+  - rewrite in_app_iff. intros [?|?]; [tauto|]. eapply H; eauto.
+  - apply IH; auto. intros y Hy. apply H; auto.
+Qed.
